@@ -494,3 +494,23 @@ pub fn byte_op(orig: u8, op: usize) -> u8 {
     }
 }
 pub const BYTE_OPS: usize = 4;
+
+/// Thorough-tier positions of an encoding longer than `BIG_INPUT`: the first 1024 and last 256
+/// bytes, everything within +-8 of a field boundary, and every 64th byte.
+pub const BIG_INPUT: usize = 16 * 1024;
+pub fn big_positions(len: usize, boundaries: &[usize]) -> Vec<usize> {
+    let mut v: Vec<usize> = (0..len.min(1024)).collect();
+    v.extend(len.saturating_sub(256)..len);
+    v.extend((0..len).step_by(64));
+    for b in boundaries {
+        for d in 0..17usize {
+            let p = (*b + d).wrapping_sub(8);
+            if p < len {
+                v.push(p);
+            }
+        }
+    }
+    v.sort();
+    v.dedup();
+    v
+}
